@@ -434,7 +434,9 @@ pub fn run_case_plan(run: &mut Run, rng: &mut Rng, cfg: &Cfg, iters: usize, faul
             // junk: duplicate / previous round / never sent in window / out of window / foreign id / wrong tuple
             let count_after = usize::from(st.sequence().0 - st.round_sequence().0) + 1 + sends.len();
             let stale_idx: Vec<usize> = (count_after..512).filter(|i| stale[*i]).collect();
-            let k = if !stale_idx.is_empty() && (force_stale || rng.chance(1, 2)) { 7 } else { rng.below(7) };
+            // sequences of this round that were abandoned for a re-issue (address in use): never on the wire
+            let abandoned: Vec<u16> = round_log.iter().filter(|x| x.2 == 'a').map(|x| x.0).collect();
+            let k = if !stale_idx.is_empty() && (force_stale || rng.chance(1, 2)) { 7 } else if !abandoned.is_empty() && rng.chance(1, 2) { 8 } else { rng.below(7) };
             run.count(&format!("junk:{k}"));
             let fake = |seq: u16, rng: &mut Rng| -> Probe {
                 let mut p = aw.first().cloned().or_else(|| prev_round_probes.first().cloned()).unwrap_or_else(|| Probe {
@@ -477,6 +479,9 @@ pub fn run_case_plan(run: &mut Run, rng: &mut Rng, cfg: &Cfg, iters: usize, faul
                 7 => { // a sequence that was never sent in this round whose slot still holds an Awaited probe of an earlier round
                     let i = *rng.pick(&stale_idx);
                     let seq = st.round_sequence().0.wrapping_add(i as u16);
+                    let p = fake(seq, rng); Recv::Resp(genuine(cfg, &p, 1000 + rng.below(5), rng.chance(1, 2), now_after, rng)) }
+                8 => { // a response naming a sequence this round allocated but never sent (its slot is Skipped)
+                    let seq = *rng.pick(&abandoned);
                     let p = fake(seq, rng); Recv::Resp(genuine(cfg, &p, 1000 + rng.below(5), rng.chance(1, 2), now_after, rng)) }
                 _ => Recv::None,
             }
